@@ -70,6 +70,21 @@ func runHistScenario(seed uint64, size int, t *Trace) {
 		if ts >= origin && ts-origin > 6000 {
 			ts = origin + uint32(r.Intn(6000))
 		}
+		if r.Chance(6) {
+			// I/O fault: reads of the history fail, writes would succeed. A save cannot check the slot, so it
+			// has to refuse and leave the file alone; a load has to report the error, not "nothing stored".
+			restore, ferr := c.VerifBreakHistoryReads()
+			if ferr == nil {
+				v := vals[r.Intn(len(vals))]
+				inRange := ts >= origin && ts-origin < 6001
+				errS := c.VerifSaveReading(ts, v)
+				_, errL := c.VerifLoadReading(ts)
+				restore()
+				t.Count("hist.readfault")
+				t.Line("cl.hist.readfault ts=%d v=%d inrange=%v => save=%v load=%v %s", ts, v, inRange, errS == nil, errL == nil, histCanon(dir))
+				continue
+			}
+		}
 		if r.Chance(65) {
 			v := vals[r.Intn(len(vals))]
 			if r.Chance(30) {
@@ -167,7 +182,14 @@ func runEnergyScenario(seed uint64, size int, t *Trace) {
 		content := sb.String()
 		// ---- calibration
 		var ct *string
-		switch r.Intn(7) {
+		switch r.Intn(9) {
+		case 7, 8:
+			// shapes on which "line" and "whitespace-separated token" differ, line ends, blank lines, extra lines
+			shapes := []string{"1000 2000\n3\n", "\n1000\n2000\n", "1000\n\n2000\n", " 1000\n2000\n", "1000 \n2000\n", "1000\n 2000\n",
+				"1000\t2000\n", "1000\r\n2000\r\n", "1000\n2000", "1000\n2000\n3000\n", "1000\n2000 3000\n", "\n", " \n \n", "1e3\n2e0\n",
+				"0x10\n2\n", "+5\n-7\n", "NaN\n1\n", "Inf\n1\n", "1_000\n1\n", "1000,2000\n1\n", "1000\n2000\n\n"}
+			s := shapes[r.Intn(len(shapes))]
+			ct = &s
 		case 1:
 			s := "-2000\n1000\n"
 			ct = &s
